@@ -502,6 +502,48 @@ Theorem C01_vol_remove_failed_unchanged : forall fold upper oem im name r im',
   Wf.wf_issues fold im' = Wf.wf_issues fold im /\ count_free (parse_geom im) im' = count_free (parse_geom im) im.
 Proof. exact vol_remove_failed_unchanged. Qed.
 
+(* ---- (c) rename of a FILE inside the root (with or without clusters: rename never touches the FAT), decoded.
+   [attrs_sane], [bytes_ok] (every slot byte < 256): as in C01_dir_refines_map.  On success either nothing happened - the
+   destination is the stored spelling of the source's own name: every byte as before -, or the decoded root lost exactly the
+   node of the source entry and gained exactly one node (first fit; all other nodes exactly as before, same relative
+   order): the SAME cluster chain and the SAME content - FAT and data area are untouched and the new entry carries the
+   source's first cluster and size -, the source's attributes (bits 6-7 dropped), the new long name; its short name is a
+   fresh legal alias, or the source's own when only the spelling changes (D22); no issue; labels, geometry, status byte
+   as before.  Any other outcome leaves every byte as it was (in particular the source: D20). *)
+Theorem C01_vol_rename_decodes : forall upper oem im src dst im',
+  fixed_root_geom (parse_geom im) -> v_root_issues (abs im) = [] ->
+  Forall attrs_sane (root_region_slots (parse_geom im) im) ->
+  Forall DirSlotsProofs.bytes_ok (root_region_slots (parse_geom im) im) ->
+  vol_rename_in_root upper oem im src dst = Some (Ok tt, im') ->
+  exists ev,
+    root_lookup upper oem im src = Ok ev /\ matches upper oem src ev = true /\ Lfn.ev_is_dir ev = false /\
+    ((exists dv, check_for_existence upper oem (root_region_slots (parse_geom im) im) dst None = Ok (Exists dv) /\
+                 Lfn.ev_end dv = Lfn.ev_end ev /\ has_exact_name ev dst = true /\
+                 (forall o, img_get im' o = img_get im o) /\ abs im' = abs im) \/
+     (exists nx n ny nc nd n' ch content,
+        v_root (abs im) = nx ++ n :: ny /\ nx ++ ny = nc ++ nd /\ v_root (abs im') = nc ++ n' :: nd /\
+        e_sfn (node_entry n) = Lfn.ev_raw_name ev /\ e_is_dir (node_entry n) = false /\ e_is_dir (node_entry n') = false /\
+        (e_is_dot (node_entry n) = false -> n = NFile (node_entry n) ch content) /\
+        (e_is_dot (node_entry n') = false -> n' = NFile (node_entry n') ch content) /\
+        e_lfn (node_entry n') = (if is_dot_name dst then [] else utf16_encode dst) /\ e_lfn_ok (node_entry n') = true /\
+        e_attr (node_entry n') = e_attr (node_entry n) mod 64 /\
+        e_size (node_entry n') = e_size (node_entry n) /\ e_cluster (node_entry n') = e_cluster (node_entry n) /\
+        ((exists a, check_for_existence upper oem (root_region_slots (parse_geom im) im) dst None = Ok (Fresh a) /\
+                    e_sfn (node_entry n') = a /\ sfn_legal_b a = true /\
+                    ~ In a (map e_sfn (map node_entry (v_root (abs im))))) \/
+         (exists dv, check_for_existence upper oem (root_region_slots (parse_geom im) im) dst None = Ok (Exists dv) /\
+                     Lfn.ev_end dv = Lfn.ev_end ev /\ has_exact_name ev dst = false /\
+                     e_sfn (node_entry n') = e_sfn (node_entry n))) /\
+        v_root_issues (abs im') = [] /\ v_labels (abs im') = v_labels (abs im) /\
+        v_geom (abs im') = v_geom (abs im) /\ v_status (abs im') = v_status (abs im))).
+Proof. exact vol_rename_decodes. Qed.
+Theorem C01_vol_rename_failed_unchanged : forall fold upper oem im src dst r im',
+  fixed_root_geom (parse_geom im) ->
+  vol_rename_in_root upper oem im src dst = Some (r, im') -> r <> Ok tt ->
+  (forall o, img_get im' o = img_get im o) /\ parse_geom im' = parse_geom im /\ abs im' = abs im /\
+  Wf.wf_issues fold im' = Wf.wf_issues fold im /\ count_free (parse_geom im) im' = count_free (parse_geom im) im.
+Proof. exact vol_rename_failed_unchanged. Qed.
+
 (* ---- [fixed_root_geom] is what format_volume produces: every accepted FAT12/16 request whose root-entry count fills
    whole sectors (the default 512 always does) *)
 Theorem C01_vol_formatted_geom : forall o ts bs t, builder_range o -> ts < 4294967296 ->
@@ -536,6 +578,18 @@ Theorem C01_vol_format_create_decodes : forall fold upper oem o ts im0 bs t im n
     Wf.wf_issues fold im1 = [] /\
     (forall x, (x < g_root_off g \/ g_root_off g + g_root_entries g * 32 <= x) -> img_get im1 x = img_get im x).
 Proof. exact format_create_decodes. Qed.
+
+(* ... the success premise above is not vacuous: on a freshly formatted FAT12/16 volume whose root has at least 22 entries
+   (label + 20 long-name slots + 1 short slot: room for ANY accepted name) create_file makes a new entry for EVERY name
+   validate_long_name accepts, under every valid clock value *)
+Theorem C01_vol_format_create_succeeds : forall upper oem o ts im0 bs t im name now,
+  builder_range o -> ts < 4294967296 -> FatProofs.bytes_ok im0 ->
+  format_boot_sector_validated o ts = Ok (bs, t) -> t <> Format.Fat32 ->
+  (o_max_root_dir_entries o * 32) mod o_bytes_per_sector o = 0 -> 22 <= o_max_root_dir_entries o ->
+  format_image o ts im0 = Ok im ->
+  validate_long_name name = Ok tt -> TimeProofs.datetime_valid now = true ->
+  exists range im1, vol_create_empty_file_root upper oem im name now = (Ok (Some range), im1).
+Proof. exact format_create_succeeds. Qed.
 
 (* ... and by induction ANY sequence of creates that each made a new entry ([vol_create_many]: None as soon as a create
    finds its name in use or fails).  The root holds exactly one node per request (a permutation of the list in creation
@@ -651,7 +705,10 @@ Print Assumptions C01_vol_create_decodes.
 Print Assumptions C01_vol_create_failed_unchanged.
 Print Assumptions C01_vol_remove_decodes.
 Print Assumptions C01_vol_remove_failed_unchanged.
+Print Assumptions C01_vol_rename_decodes.
+Print Assumptions C01_vol_rename_failed_unchanged.
 Print Assumptions C01_vol_formatted_geom.
 Print Assumptions C01_vol_format_create_decodes.
+Print Assumptions C01_vol_format_create_succeeds.
 Print Assumptions C01_vol_format_create_many_decodes.
 Print Assumptions C01_vol_create_many_decodes.
